@@ -740,7 +740,9 @@ def nn_cases(seed, tier):
     rng = random.Random(seed * 31 + 5)
     cases = []
     embs = [dict(h=1.0, o=[0.0, 0.0, 0.0]), dict(h=0.1, o=[-17.25, 3.5, 0.7]), dict(h=7.3, o=[1000.0, -1000.0, 250.0]),
-            dict(h=64.0, o=[0.0, 0.0, 0.0]), dict(h=1e-3, o=[5.0, 5.0, 5.0])]
+            dict(h=64.0, o=[0.0, 0.0, 0.0]), dict(h=1e-3, o=[5.0, 5.0, 5.0]),
+            # far from unit scale (the search is scale free; absolute thresholds only show here)
+            dict(h=2.0 ** -40, o=[0.0, 0.0, 0.0]), dict(h=1e-9, o=[0.0, 0.0, 0.0]), dict(h=2.0 ** 30, o=[0.0, 0.0, 0.0])]
 
     def add(G, dim, per, gens, queries, limit, emb):
         cases.append({"id": len(cases), "G": list(G), "dim": dim, "per": per, "gens": [list(g) for g in gens],
@@ -802,7 +804,7 @@ def nn_cases(seed, tier):
                 pts.add(p)
         sel = sorted(pts)
         queries = sorted(rng.sample(range(len(sel)), 5))
-        emb = dict(h=[2.0 ** -10, 1e-3, 1.0, 0.37][k % 4], o=[[0.0, 0.0, 0.0], [-17.25, 3.5, 0.7]][k % 2])
+        emb = dict(h=[2.0 ** -10, 1e-3, 1.0, 0.37, 2.0 ** -50][k % 5], o=[[0.0, 0.0, 0.0], [-17.25, 3.5, 0.7]][k % 2] if k % 5 != 4 else [0.0, 0.0, 0.0])
         add(gsz, dim, per, sel, queries, 100000, emb)
     # large inputs: 10^3 (quick) .. 10^4 (thorough) lattice points, the prefix the builder consumes
     big = [(9, 3, True), (9, 3, False), (31, 2, True)] if tier == "quick" else [(9, 3, True), (9, 3, False), (21, 3, True), (21, 3, False), (99, 2, True), (999, 1, True)]
@@ -1278,7 +1280,8 @@ def knn_cases(seed, tier):
                 for k in ks:
                     if k >= n:
                         continue
-                    h, o = rng.choice([(1.0, [0.0, 0.0, 0.0]), (0.5, [1.0, 1.0, 1.0]), (2.0, [-3.0, 5.0, 0.5])])
+                    h, o = rng.choice([(1.0, [0.0, 0.0, 0.0]), (0.5, [1.0, 1.0, 1.0]), (2.0, [-3.0, 5.0, 0.5]),
+                                       (2.0 ** -30, [0.0, 0.0, 0.0]), (2.0 ** 20, [0.0, 0.0, 0.0])])
                     cases.append({"id": len(cases), "G": list(G), "pts": [[p[0] / 4.0, p[1] / 4.0, p[2] / 4.0] for p in pts],
                                   "k": k, "mcw": mcw, "h": h, "o": o})
     return cases
